@@ -59,17 +59,44 @@ def bnot(a):
 
 
 def bsub(a, assign):
-    """Substitute variable values (dict var->0/1) into a bit form."""
+    """Substitute into a bit form.  assign maps a variable to 0/1 or to an affine form (vars, const) - the
+    latter comes from a case split on an XOR of several input bits."""
     if a is TOP:
         return TOP
     vs, c = a
     keep = set()
     for v in vs:
         if v in assign:
-            c ^= assign[v]
+            val = assign[v]
+            if isinstance(val, tuple):
+                keep ^= set(val[0])
+                c ^= val[1]
+            else:
+                c ^= val
         else:
-            keep.add(v)
+            keep ^= {v}
     return (frozenset(keep), c)
+
+
+def apply_assumptions(bv, assume):
+    """bv under the path condition `assume` (an insertion-ordered dict of eliminations, each expressed in the
+    variables that were still free when it was made): applied one after the other."""
+    for k, v in assume.items():
+        bv = bv.subst({k: v})
+    return bv
+
+
+def split_on(bit):
+    """[(taken, assignment)] for a branch on a non-constant affine bit; None if it cannot be split."""
+    if bit is TOP or not bit[0]:
+        return None
+    vs, c = bit
+    if len(vs) == 1:
+        (v,) = vs
+        return [(True, {v: 1 ^ c}), (False, {v: c})]
+    pivot = sorted(vs)[-1]
+    rest = frozenset(vs - {pivot})
+    return [(True, {pivot: (rest, c ^ 1)}), (False, {pivot: (rest, c)})]
 
 
 def bshow(a):
@@ -244,10 +271,8 @@ class Evaluator:
                     branches = [(False, {})]
                 elif any(is_const(b) and b[1] == 1 for b in nz):
                     branches = [(True, {})]
-                elif len(nz) == 1 and nz[0] is not TOP and len(nz[0][0]) == 1:
-                    (v,) = nz[0][0]
-                    c = nz[0][1]
-                    branches = [(True, {v: 1 ^ c}), (False, {v: c})]
+                elif len(nz) == 1 and split_on(nz[0]):
+                    branches = split_on(nz[0])
                 else:
                     raise Unsupported("branch on a non-single-bit condition %s" % show(cond))
                 for taken, asg in branches:
@@ -264,13 +289,63 @@ class Evaluator:
             return self._switch(fn, st, assume, env, depth)
         if k in ("NullStmt", "BreakStmt"):
             return [(assume, env, None)]
-        if k in ("ForStmt", "WhileStmt", "DoStmt", "CXXForRangeStmt"):
+        if k in ("ForStmt", "WhileStmt", "DoStmt"):
+            return self._loop(fn, st, assume, env, depth)
+        if k == "CXXForRangeStmt":
             raise Unsupported("loop")
         # expression statement
         out = []
         for a2, env2 in self._exec_expr(fn, st, env, depth):
             out.append((dict(assume, **a2), env2, None))
         return out
+
+    MAX_PATHS = 4096
+
+    def _loop(self, fn, st, assume, env, depth):
+        """A loop whose condition is a constant on every pass (a counted loop over concrete values) is unrolled."""
+        parts = st.get("parts", {})
+        body = st["c"][parts["body"]] if "body" in parts else None
+        if body is None and st["k"] == "DoStmt":
+            body, condn = st["c"][0], st["c"][1]
+        else:
+            condn = st["c"][parts["cond"]] if "cond" in parts else None
+        if body is None:
+            raise Unsupported("loop without body")
+        for x in walk(body):
+            if x.get("k") in ("BreakStmt", "ContinueStmt", "GotoStmt"):
+                raise Unsupported("loop with break/continue")
+        paths = [(assume, env, None)]
+        if "init" in parts:
+            paths = self._stmts(fn, [st["c"][parts["init"]]], paths, depth)
+        done = []
+        first = True
+        for _ in range(70):
+            live = []
+            for a, e, r in paths:
+                if r is not None:
+                    done.append((a, e, r))
+                    continue
+                if st["k"] == "DoStmt" and first:
+                    live.append((a, e, None))
+                    continue
+                if condn is None:
+                    raise Unsupported("loop without condition")
+                cvs = self._expr(fn, condn, e, depth)
+                if len(cvs) != 1 or cvs[0][1].value() is None:
+                    raise Unsupported("loop condition is not a constant")
+                if cvs[0][1].value():
+                    live.append((a, e, None))
+                else:
+                    done.append((a, e, None))
+            first = False
+            if not live:
+                return done
+            if len(live) + len(done) > self.MAX_PATHS:
+                raise Unsupported("too many paths")
+            paths = self._stmts(fn, [body], live, depth)
+            if "inc" in parts:
+                paths = self._stmts(fn, [st["c"][parts["inc"]]], paths, depth)
+        raise Unsupported("loop not finished after 70 passes")
 
     def _switch(self, fn, st, assume, env, depth):
         cond = st["c"][0]
@@ -340,9 +415,21 @@ class Evaluator:
             if tgt.get("k") in ("DeclRefExpr", "MemberExpr"):
                 key = tgt["d"]
                 vs = self._expr(fn, s["c"][1], env, depth)
+                if len(vs) != 1 and s["op"] != "=":
+                    outp = []
+                    for a2, rv in vs:
+                        e2 = {kk: (vv.subst(a2) if isinstance(vv, BV) else vv) for kk, vv in env.items()}
+                        cur = e2.get(key)
+                        if cur is None:
+                            raise Unsupported("compound assignment to unknown")
+                        w = tgt.get("w") or rv.width
+                        cw = (s.get("comp") or {}).get("w") or max(w, rv.width)
+                        a_, b_ = cur.resize(cw, bool(tgt.get("sg"))), self._conv(rv, cw, s["c"][1])
+                        nv = self._binop(s["op"][:-1], a_, b_, s, fn, e2, depth, rhs_node=s["c"][1])
+                        e2[key] = nv.resize(w, False) if nv.width >= w else self._conv(nv, w, s["c"][1])
+                        outp.append((a2, e2))
+                    return outp
                 if len(vs) != 1:
-                    if s["op"] != "=":
-                        raise Unsupported("forking compound assignment")
                     # one path per case of the right-hand side (e.g. a table indexed by two input bits)
                     outp = []
                     for a2, rv in vs:
@@ -380,8 +467,48 @@ class Evaluator:
                     env = dict(env)
                     env[tgt["d"]] = vs[0][1]
                     return [(vs[0][0], env)]
+        if k == "UnaryOperator" and s.get("op") in ("++", "--"):
+            tgt = strip_all(s["c"][0])
+            if tgt is not None and tgt.get("k") in ("DeclRefExpr", "MemberExpr") and isinstance(env.get(tgt.get("d")), BV):
+                cur = env[tgt["d"]]
+                cv = cur.value()
+                env = dict(env)
+                if cv is None:
+                    env[tgt["d"]] = BV([TOP] * cur.width)
+                else:
+                    env[tgt["d"]] = BV.const((cv + (1 if s["op"] == "++" else -1)) & ((1 << cur.width) - 1), cur.width)
+                return [({}, env)]
+        if k == "CXXMemberCallExpr" and not s.get("w"):
+            # a void method of the same object: its effect on the tracked members
+            cal = strip(s["c"][0]) if s.get("c") else None
+            obj = strip_all(cal["c"][0]) if cal is not None and cal.get("c") else None
+            ts = self.prog.call_targets(fn, s)
+            if (obj is None or obj.get("k") == "CXXThisExpr") and len(ts) == 1 and ts[0].body is not None and \
+                    any(isinstance(env.get(x.get("d")), BV) for x in ts[0].walk() if x.get("k") == "MemberExpr"):
+                return self._call_effects(fn, s, ts[0], env, depth)
         # evaluate for completeness (calls without effect on tracked state)
         return [({}, env)]
+
+    def _call_effects(self, fn, n, callee, env, depth):
+        if depth >= self.max_inline:
+            raise Unsupported("inline depth")
+        cenv = dict(env)
+        assume = {}
+        for p, a in zip(callee.params, call_args(n)):
+            vs = self._expr(fn, a, env, depth)
+            if len(vs) != 1:
+                raise Unsupported("forking argument")
+            assume.update(vs[0][0])
+            w = p.get("w")
+            cenv[p["d"]] = self._conv(vs[0][1], w, a) if w else vs[0][1]
+        out = []
+        for a2, e2, ret in self._stmts(callee, [callee.body], [(assume, cenv, None)], depth + 1):
+            merged = {kk: (vv.subst(a2) if isinstance(vv, BV) else vv) for kk, vv in env.items()}
+            for kk in env:
+                if kk in e2:
+                    merged[kk] = e2[kk]
+            out.append((a2, merged))
+        return out
 
     # --- pure expressions --------------------------------------------------
     def _conv(self, v, w, src_node):
@@ -468,6 +595,8 @@ class Evaluator:
             for a1, l in self._expr(fn, n["c"][0], env, depth):
                 for a2, r in self._expr(fn, n["c"][1], env, depth):
                     ww = w or max(l.width, r.width)
+                    if op in ("==", "!=", "<", "<=", ">", ">="):
+                        ww = max(l.width, r.width)      # the result is a bool; the operands keep their width
                     if op in ("<<", ">>"):
                         lv = l.resize(ww, self._signed(n["c"][0]))
                         out.append((dict(a1, **a2), self._binop(op, lv, r, n, fn, env, depth, rhs_node=n["c"][1])))
@@ -484,10 +613,9 @@ class Evaluator:
                     out.extend((dict(a, **a2), v) for a2, v in self._expr(fn, n["c"][2], env, depth))
                 elif any(is_const(b) and b[1] for b in nz):
                     out.extend((dict(a, **a2), v) for a2, v in self._expr(fn, n["c"][1], env, depth))
-                elif len(nz) == 1 and nz[0] is not TOP and len(nz[0][0]) == 1:
-                    (v_,) = nz[0][0]
-                    c = nz[0][1]
-                    for taken, asg in ((1, {v_: 1 ^ c}), (2, {v_: c})):
+                elif len(nz) == 1 and split_on(nz[0]):
+                    for tk, asg in split_on(nz[0]):
+                        taken = 1 if tk else 2
                         e2 = {kk: (vv.subst(asg) if isinstance(vv, BV) else vv) for kk, vv in env.items()}
                         for a2, v in self._expr(fn, n["c"][taken], e2, depth):
                             out.append((dict(dict(a, **asg), **a2), v.subst(asg)))
@@ -562,9 +690,29 @@ class Evaluator:
         if op in ("==", "!="):
             # only decidable when both constant, or comparing a single-bit value with 0
             lv, rv = l.value(), r.value()
+            rw = n.get("w") or 32
             if lv is not None and rv is not None:
-                return BV.const(int((lv == rv) == (op == "==")), 1).resize(n.get("w") or 32)
+                return BV.const(int((lv == rv) == (op == "==")), 1).resize(rw)
+            # a value with one possibly-set bit against 0; two 0/1 values against each other
+            for x, other in ((l, rv), (r, lv)):
+                nzb = [b for b in x.bits if not (is_const(b) and b[1] == 0)]
+                if other == 0 and len(nzb) == 1 and nzb[0] is not TOP:
+                    b0 = nzb[0] if op == "!=" else bnot(nzb[0])
+                    return BV([b0] + [bconst(0)] * (rw - 1))
+            if all(is_const(b) and b[1] == 0 for b in l.bits[1:] + r.bits[1:]) and l.bits[0] is not TOP and r.bits[0] is not TOP:
+                b0 = bxor(l.bits[0], r.bits[0])
+                return BV([b0 if op == "!=" else bnot(b0)] + [bconst(0)] * (rw - 1))
             raise Unsupported("symbolic comparison")
+        if op in ("<", "<=", ">", ">="):
+            lv, rv = l.value(), r.value()
+            if lv is not None and rv is not None:
+                sg = bool((strip(n["c"][0]) or {}).get("sg")) if n.get("c") else False
+                if sg:
+                    lv = lv - (1 << l.width) if lv >> (l.width - 1) else lv
+                    rv = rv - (1 << r.width) if rv >> (r.width - 1) else rv
+                res = {"<": lv < rv, "<=": lv <= rv, ">": lv > rv, ">=": lv >= rv}[op]
+                return BV.const(int(res), n.get("w") or 32)
+            raise Unsupported("symbolic ordering comparison")
         raise Unsupported("binary %s" % op)
 
     def _const_table(self, fn, base):
